@@ -236,9 +236,13 @@ PROPS = {
                       "single shellQuote'd value; splitVar splits at the first '=' only; args.Parse keeps order and last assignment; --init writes "
                       "at the path computed from the first positional argument and never over an existing entry. Tie: syntax.Quote, shell.Fields, "
                       "args.Parse/Get run in process against the model on generated byte strings (exact equality), and the real CLI end to end with "
-                      "an argv-recording helper for {{.CLI_ARGS}}, {{shellQuote .X}}, {{q .X}} and task --init on generated trees.",
+                      "an argv-recording helper for {{.CLI_ARGS}}, {{shellQuote .X}}, {{q .X}} — directly, through an included task, through a task: call "
+                      "handing the value on in vars:, through a global alias, and for non-string values — and task --init on generated trees, where the "
+                      "expected target is computed by the generator from the rule (directory -> dir/Taskfile.yml, .ext -> Taskfile.ext, file -> that file, "
+                      "never overwrite) and the model must agree with it.",
         "level_note": "Trusted: Lean kernel; harness canonicalisation; mvdan.cc/sh as the shell (oracle for `words`); unicode tables of the Go toolchain. "
-                      "Open finding: forwarded values that contain a template action are evaluated by the template engine (DESIGN §8 row 26).",
+                      "Open findings: forwarded values that contain a template action are evaluated by the template engine (DESIGN §8 row 26); the literal "
+                      "<no value> is deleted; a global variable defined from a forwarded value is empty (C19-forwarded-value-empty-in-global-alias).",
     },
     "C04": {
         "lean": "Props.C04",
@@ -379,27 +383,44 @@ PROPS["C06"]["level_text"] += (" Second tie (domain wc): generated Taskfiles ref
 
 
 PROPS["C10"] = {
-    "lean": "Props.C10", "domains": [{"name": "vars", "env": {"VERIF_VARS_ENVDEP": "0"}}],
-    "trusted": ["the shell is an input of the model (theorems hold for every shell); the harness reads the abstract definition layers back from what Task "
-                "loaded (Compiler.TaskfileEnv/TaskfileVars, Task.IncludeVars/IncludedTaskfileVars/Vars) and parses only the template forms its generator emits"],
-    "assumptions": ["templates are concatenations of text and {{.NAME}} references; values are strings; env-precedence experiment off in the harness process "
-                    "(its guard is pinned by Gen.VarLayers)"],
-    "level_text": "Theorems for every set of definitions at every site, every value kind and every shell: the last definition in processing order wins and is "
-                  "evaluated over exactly what was resolved before it (C10_last_wins), undefined names keep the process-environment value, later sites cannot "
-                  "be influenced by earlier ones except through references; command environment: task env > task dotenv (first file wins) > global env, "
-                  "process environment wins unless the experiment. Tie: Gen.VarLayers (loop order of getVariables, task-dir resolution point, env merges, "
-                  "GetFromVars guard) proved equal to the documented order; the real CompiledTask on generated definition-site lattices must equal the model.",
-    "level_note": "Trusted: Lean kernel; extractor; harness abstraction of loaded variables; go-task/template for the restricted template forms.",
+    "lean": "Props.C10", "domains": [{"name": "vars", "env": {"VERIF_VARS_ENVDEP": "0"}}, {"name": "varscli"}], "cli": True,
+    "trusted": ["the shell is an input of the model (theorems hold for every shell); the harness hands the model the Taskfiles AS IT WROTE THEM (root / included / "
+                "nested file vars, include statements' vars, call and task vars, names, raw dirs, file locations) — the merges of Taskfile.Merge, the read-time "
+                "templating of include vars, the special variables, MATCH and the POST layer are definitions of the model (Vars.Compile), not harness input; it "
+                "emits only the template forms its generator knows; fingerprint values are canonicalised to LIVE (who wins is compared, not the hash)"],
+    "assumptions": ["templates are concatenations of text and {{.NAME}} references; values are strings (an env entry given by a ref: that resolves to nothing is outside "
+                    "the modelled domain); one include chain (sibling includes are the Load domain's); dir: templates without .ROOT_DIR/.TASKFILE_DIR/.USER_WORKING_DIR; "
+                    "the env-precedence experiment is exercised through the CLI binary (TASK_X_ENV_PRECEDENCE=1), its guard is pinned by Gen.VarLayers"],
+    "level_text": "Theorems for every set of definitions at every site, every value kind and every shell: the model's six sites are the code's six loops by name "
+                  "(docOrder_matches); the last definition of a name in processing order wins and is evaluated over exactly what the sites below it and the "
+                  "definitions before it resolved, in the directory of that site at that moment (C10_last_wins, no existential); special variables are a "
+                  "definition (special), available when no site defines them and overridden by any site (C10_special_available/_overridden) except for the POST "
+                  "layer CHECKSUM/TIMESTAMP (counterexample + partial: open finding); the global layer is the root file's vars with every included file's merged in "
+                  "(later wins, position kept) and the command-line layer appended: a root task sees an included file's value (C10_root_task_sees_included_global), a "
+                  "declared global sees a NAME=value assignment iff the name stands before it in the merged layer (C10_cli_ref_iff; CLI_* likewise: open finding); "
+                  "command environment over the real pipeline: task env > task dotenv (first file wins) > global env, each rendered over the task's final "
+                  "variables, process environment wins unless the experiment (C10_env_pipeline). Tie: Gen.VarLayers (loop order, task-dir closure, special-variable "
+                  "table, POST layer, MATCH, cmd/task's merge, env merges, GetFromVars guard); the real CompiledTask / the real CLI on generated definition-site "
+                  "lattices must equal the model computed from the files as written.",
+    "level_note": "Trusted: Lean kernel; extractor; harness rendering of the Taskfiles it describes to the model; go-task/template for the restricted template forms. "
+                  "Open: C10-cli-specials-defined-after-globals, C10-fingerprint-vars-override-user-definition.",
 }
 PROPS["C11"] = {
-    "lean": "Props.C11", "domains": [{"name": "vars"}],
-    "trusted": PROPS["C10"]["trusted"],
-    "assumptions": PROPS["C10"]["assumptions"] + ["C11 is proved under EnvIndep (an sh: command's output depends on its text and directory only); without it the "
-                                                   "statement is false (machine-checked counterexample; open finding C11-dynamic-cache-ignores-env)"],
+    "lean": "Props.C11", "domains": [{"name": "vars", "env": {"VERIF_VARS_POSTMON": "0"}}],
+    "trusted": PROPS["C10"]["trusted"] + ["the file-system stream tracks the world itself (which file holds what when a call starts, what the first read of a "
+                                          "(directory, command) pair was) to evaluate the property's monitor"],
+    "assumptions": PROPS["C10"]["assumptions"] + ["C11 is proved under EnvIndep (an sh: command's output depends on its text and directory only) and, over the file "
+                                                   "system, for histories whose command effects are invisible to the sh: commands; without these the statement is false "
+                                                   "(machine-checked counterexamples; open findings C11-dynamic-cache-ignores-env, C11-dynamic-cache-ignores-files)"],
     "level_text": "Theorem (induction over arbitrary histories of compilations): for every cache reachable by compiling any sequence of other tasks, a task "
                   "resolves to the same variables as with an empty cache, provided sh: output depends on command text and directory only; the cache stays "
-                  "coherent. Counterexample to the unrestricted statement checked by `decide`. Tie: Gen.VarLayers pins the cache key (dir + command) and its "
-                  "lock; the harness compiles random call sequences in ONE executor and compares every compile with the model on an EMPTY cache.",
+                  "coherent. Over a world state (Vars.World: the oracle gets the file system, commands are functions on it, histories interleave compilations "
+                  "and command effects): C11_fs_full is refuted by `decide` (b reads what a cached before a's command rewrote the file), C11_fs_partial holds "
+                  "for effects no sh: command can see. Directory clause: an sh: variable of the task runs in the task's directory as resolved over the "
+                  "variables known when it is reached (fix V8-3); it is the compiled Dir whenever nothing from that point on defines a name the dir: refers "
+                  "to (C11_dir_clause_partial; the full clause is circular: counterexample). Tie: Gen.VarLayers pins the cache key (dir + command), its lock and "
+                  "the per-variable directory closure; the harness compiles random call sequences in ONE executor and compares every compile with the model on an "
+                  "EMPTY cache, and runs sequences of tasks whose commands rewrite files later sh: variables read.",
     "level_note": "Trusted: as C10. The concurrent case (two compilations racing on shared definitions) is C18's.",
 }
 _sched("C02", "Theorems over every accepted trace: the non-deferred entries of one execution start one at a time, in strictly increasing index order, "
@@ -409,7 +430,7 @@ _sched("C02", "Theorems over every accepted trace: the non-deferred entries of o
               "its end (C02_no_entry_skipped, C02_body_complete); every command of a callee saw the value its reference passed (literal, a variable of "
               "the referrer, the referrer's own value; Sched.Pass, valMon beside the acceptor's own step: verdict C02v, C02_callee_sees_passed). "
               "Loop order (list, row-major matrix) and call variables: Props.C02Vars over the Vars model, tied by domain `vars`.")
-PROPS["C02"]["domains"] = [{"name": "sched"}, {"name": "vars", "env": {"VERIF_VARS_ENVDEP": "0"}}]
+PROPS["C02"]["domains"] = [{"name": "sched"}, {"name": "vars", "env": {"VERIF_VARS_ENVDEP": "0", "VERIF_VARS_POSTMON": "0"}}, {"name": "callvals"}]
 PROPS["C02"]["lean"] = "Props.C02All"
 PROPS["C02"]["prop_modules"] = ["Props.C02", "Props.C02Vars"]
 _sched("C03", "Theorems over every accepted trace: after a command failure that is not ignored no later non-deferred entry of that activation starts "
@@ -503,15 +524,31 @@ def _c19_no_value_deleted(m):
             and m["impl"].endswith(" novalue"))
 
 
+def _c02_call_values(m):
+    """C02-call-values-templated-again, one mechanism only: the monitor line of the callvals domain for a value that contains a template
+    action or the literal <no value>, and the callee holds exactly what one more pass of the real templater makes of it (or that pass
+    fails and so does the call) - tag set by the harness."""
+    return (m.get("domain") == "callvals" and m.get("case_line", "").startswith("vars.callmon ")
+            and m["impl"].endswith(" templated-again"))
+
+
+def _c19_alias_empty(m):
+    """C19-forwarded-value-empty-in-global-alias, one mechanism only: the `alias` path of the cliargs domain (the command uses a GLOBAL
+    variable defined as '{{.CLI_ARGS}}' / '{{.X}}') and the helper received nothing resp. two empty arguments (tag set by the harness)."""
+    c = m.get("case") or {}
+    return (m.get("domain") == "cliargs" and c.get("path") == "alias" and c.get("kind") in ("fwd", "var")
+            and m["impl"].endswith(" alias-empty"))
+
+
 def _c11_env_cache(m):
     """C11-dynamic-cache-ignores-env: the dynamic-variable cache is keyed by (dir, command text); a command that reads a
     variable from the environment it is handed is served from the entry another task created with a different value.
     Narrow: vars domain, not the first compile of the sequence (same or another task compiled earlier with other values), the
     case contains an env-reading command, and only names defined through such a command (or referring to one) differ."""
     c = m.get("case") or {}
-    if m.get("domain") != "vars" or c.get("kind") != "resolve" or c.get("only", 0) < 1 or not m["case_line"].startswith("vars.resolve"):
+    if m.get("domain") != "vars" or c.get("kind") != "resolve" or c.get("only", 0) < 1 or not m["case_line"].startswith("vars.compile"):
         return False
-    lists = [c.get("root_vars") or [], c.get("inc_vars") or [], c.get("sub_vars") or []]
+    lists = [c.get("root_vars") or [], c.get("inc_vars") or [], c.get("sub_vars") or [], c.get("deep_inc_vars") or [], c.get("leaf_vars") or []]
     for t in c.get("tasks") or []:
         lists.append(t.get("vars") or [])
     for cl in c.get("seq") or []:
@@ -532,11 +569,39 @@ def _c11_env_cache(m):
             for d in l:
                 if d["name"] not in tainted and any(("{{.%s}}" % t) in d["text"] or (d["kind"] in ("ref", "envsh") and d["text"] == t) for t in tainted):
                     tainted.add(d["name"]); changed = True
-    pool = ["VA", "VB", "VC", "VD", "VE", "VF", "VG", "TASK_DIR", "TASK"]  # = vPool of harness/vars.go (the answer has one value per name)
+    # the answer line: the values of VARS_QUERY (harness vQuery), then `dir=…`
     a, b = m["impl"].split(), m["model"].split()
-    if len(a) != len(b) or len(a) != len(pool):
+    if len(a) != len(b) or len(a) != len(VARS_QUERY) + 1:
         return False
-    return all(pool[i] in tainted for i in range(len(pool)) if a[i] != b[i])
+    return a[-1] == b[-1] and all(VARS_QUERY[i] in tainted for i in range(len(VARS_QUERY)) if a[i] != b[i])
+
+
+VARS_QUERY = ["VA", "VB", "VC", "VD", "VE", "VF", "VG", "TASK", "TASK_DIR", "ROOT_DIR", "ROOT_TASKFILE", "TASKFILE", "TASKFILE_DIR", "USER_WORKING_DIR",
+              "ALIAS", "MATCH", "CHECKSUM", "TIMESTAMP"]
+
+
+def _c11_fs_cache(m):
+    """C11-dynamic-cache-ignores-files, one mechanism only: the monitor line `vars.fsmon` of the file-system stream (a call must read
+    what it would read alone in the world as it is when it starts) and what it printed instead is exactly what the cache entry of
+    its (directory, command) holds from an earlier compilation (tag set by the harness, which tracks the world and the first reads)."""
+    return (m.get("domain") == "vars" and m.get("case_line", "").startswith("vars.fsmon ")
+            and m["impl"].endswith(" stale-cache"))
+
+
+def _c10_cli_specials(m):
+    """C10-cli-specials-defined-after-globals, one mechanism only: the monitor line of the CLI stream (`vars.climon`) for a declared
+    global / global env entry that refers to CLI_* names only, and the value printed is exactly the entry's text with those references
+    rendered empty (tag set by the harness)."""
+    return (m.get("domain") == "varscli" and m.get("case_line", "").startswith("vars.climon ")
+            and m["impl"].endswith(" cli-special-empty"))
+
+
+def _c10_post_layer(m):
+    """C10-fingerprint-vars-override-user-definition, one mechanism only: the monitor line `vars.postmon` of a task with sources whose
+    CHECKSUM / TIMESTAMP is defined (one literal) at a site the call sees, and the task got the live fingerprint value instead (tag set
+    by the harness)."""
+    return (m.get("domain") == "vars" and m.get("case_line", "").startswith("vars.postmon ")
+            and m["impl"].endswith(" post-layer-wins"))
 
 
 def _call_limit_acyclic(m):
@@ -554,8 +619,13 @@ def _call_limit_acyclic(m):
 FINDING_PREDICATES = {
     "C07-call-limit-hits-acyclic-graphs": _call_limit_acyclic,
     "C06-call-limit-hits-many-references": _call_limit_acyclic,
+    "C02-call-values-templated-again": _c02_call_values,
+    "C10-cli-specials-defined-after-globals": _c10_cli_specials,
+    "C10-fingerprint-vars-override-user-definition": _c10_post_layer,
     "C11-dynamic-cache-ignores-env": _c11_env_cache,
+    "C11-dynamic-cache-ignores-files": _c11_fs_cache,
     "C19-cli-values-are-templated": _c19_values_templated,
+    "C19-forwarded-value-empty-in-global-alias": _c19_alias_empty,
     "C19-no-value-text-deleted": _c19_no_value_deleted,
 }
 
